@@ -1,3 +1,4 @@
+#![allow(static_mut_refs, unused_imports, dead_code, unused_unsafe)]
 // Kani harnesses for src/model_file_operations.rs (typed vertex attribute readers / writers)
 use super::*;
 use crate::verif_support::refs::ref_half_to_f32_bits;
